@@ -9,6 +9,7 @@ func init() {
 		func(c *Ctx) {
 			ruleBTWidth(c, true)
 			ruleBTRec(c)
+			ruleRecList(c)
 			ruleBTArrMap(c)
 			rulePCArg(c, nil, 18, 3)
 			rulePCReg(c)
